@@ -38,21 +38,29 @@ def q(s):
 
 
 def assemble(c, lib):
-    lines = ["function __module__"]
-    for v in c["vals"]:
-        lines.append(f"\t{MAKE[v['kind']]} {q(v['src'])}")
     def callins(call):
         base = str(lib) if c.get("spell", "plain") == "plain" else BACKSLASH_NAME
         libpath = base if call != "missing_library" else base + ".absent"
         sym = call if call.startswith("probe_") else ("probe_echo" if call == "missing_library" else "probe_absent")
-        return [f"\tcall_lib {q(libpath)} {q(sym)}", '\tprintn "*"', "\tvoid"]
-    lines += callins(c["call"])
+        return f"\tcall_lib {q(libpath)} {q(sym)}"
+    pushes = [f"\t{MAKE[v['kind']]} {q(v['src'])}" for v in c["vals"]]
+    where = c.get("where", "module")
+    helper = []
+    lines = ["function __module__"]
+    if where == "module":
+        lines += pushes + [callins(c["call"]), '\tprintn "*"', "\tvoid"]
+    elif where == "fn":        # the whole exchange inside a bytecode function
+        helper = ["function helper"] + pushes + [callins(c["call"]), '\tprintn "*"', "\tvoid", "\tret", "end"]
+        lines += ['\tcall "main.mmm#helper"', "\tvoid"]
+    else:                      # tail: the foreign call is the last instruction before `ret`; the module prints what comes back
+        helper = ["function helper"] + pushes + [callins(c["call"]), "\tret", "end"]
+        lines += ['\tcall "main.mmm#helper"', '\tprintn "*"', "\tvoid"]
     if c.get("call2"):
         for v in c["vals2"]:
             lines.append(f"\t{MAKE[v['kind']]} {q(v['src'])}")
-        lines += callins(c["call2"])
+        lines += [callins(c["call2"]), '\tprintn "*"', "\tvoid"]
     lines += ['\tmake_str "after"', '\tprintn "*"', "\tvoid", "\tret_mod", "end"]
-    return "\n".join(lines) + "\n"
+    return "\n".join(helper + lines) + "\n"
 
 
 def observe(binary, root, c, lib):
@@ -81,12 +89,12 @@ def run(tier, replay=None):
         raise C.ToolError(f"MSFfiMachine: {mm.error or mm.invariant_violated}")
     c3, g = gen.run_generator("GenFfi", work / "gen", dict(MaxLen=(3 if tier == "quick" else 4)), timeout=2400)
     c1, g1 = gen.run_generator("GenFfi", work / "gen1", dict(MaxLen=(1 if tier == "quick" else 2), ValIdx="{1,2,3,4,5,6,7,8,9,10,11,12}"))
-    cases = gen.dedupe(c3 + c1, lambda c: (tuple(c["args"]), c["call"], c["call2"], tuple(c["args2"]), c["spell"]))
+    cases = gen.dedupe(c3 + c1, lambda c: (tuple(c["args"]), c["call"], c["call2"], tuple(c["args2"]), c["spell"], c["where"]))
     if tier == "thorough":
         c6, g6 = gen.run_generator("GenFfi", work / "gen6", dict(MaxLen=6, ValIdx="{1,2}"))
-        cases = gen.dedupe(cases + c6, lambda c: (tuple(c["args"]), c["call"], c["call2"], tuple(c["args2"]), c["spell"]))
+        cases = gen.dedupe(cases + c6, lambda c: (tuple(c["args"]), c["call"], c["call2"], tuple(c["args2"]), c["spell"], c["where"]))
     for c in cases:
-        c["id"] = ("" if c["spell"] == "plain" else "[lib name with backslash] ") + f"{c['call']}({', '.join(v['dbg'] for v in c['vals'])})" + (f" ; {c['call2']}({', '.join(v['dbg'] for v in c['vals2'])})" if c["call2"] else "")
+        c["id"] = ("" if c["where"] == "module" else f"[call in {c['where']}] ") + ("" if c["spell"] == "plain" else "[lib name with backslash] ") + f"{c['call']}({', '.join(v['dbg'] for v in c['vals'])})" + (f" ; {c['call2']}({', '.join(v['dbg'] for v in c['vals2'])})" if c["call2"] else "")
     cases.sort(key=lambda c: c["id"])
     root = C.fresh_dir(work / "slots")
     obs = C.pmap(lambda c: observe(binary, root, c, lib), cases)
